@@ -1067,9 +1067,11 @@ class LangServer:
         def_fqsn: str = def_obj.FQSN
         # Whole-word occurrences; look-arounds so that neighbouring occurrences
         # separated by a single character (i=i+1) are all found
-        # (the exponent of a real literal written 1.d0 is not a word)
+        # (the exponent of a real literal written 1.d0 is not a word, the kind
+        # parameter of a literal written 1.0_dp is one)
         NAME_REGEX = re.compile(
-            rf"(?<![\w$])(?<!\d\.)({re.escape(def_name)})(?![\w$])", re.I
+            rf"(?:(?<![\w$])(?<!\d\.)|(?<=[\d.]_))({re.escape(def_name)})(?![\w$])",
+            re.I,
         )
         if file_obj is None:
             file_set = self.workspace.items()
